@@ -109,6 +109,8 @@ pub const E_POISONED: usize = C_ENGINE_BASE + 34;
 pub const E_CLOSE_COUNTED: usize = C_ENGINE_BASE + 35;
 pub const E_GEN_FLIP_CHECKS: usize = C_ENGINE_BASE + 36;
 pub const E_CONCURRENT_ADD: usize = C_ENGINE_BASE + 37;
+pub const E_FOREIGN_INSTALL: usize = C_ENGINE_BASE + 38;
+pub const E_LONG_STALL: usize = C_ENGINE_BASE + 39;
 
 pub const REG_REAL: &[&str] = &[
     "signal-hook-registry (half_lock.rs, lib.rs): real code from /repo",
@@ -136,6 +138,7 @@ pub const PROPS: &[Prop] = &[
             (E_NESTED_IN_STORE, "nested_delivery_inside_store"),
             (C_BARRIER_LOOPED, "barrier_looped_at_least_once"),
             (E_REMOVALS, "successful_removals_checked"),
+            (E_LONG_STALL, "fault:delivery_stalled_for_a_million_writer_spins"),
         ],
         real: REG_REAL,
         stub: REG_STUB,
@@ -175,7 +178,7 @@ pub const PROPS: &[Prop] = &[
         quick_runs: 120_000,
         thorough_runs: 3_000_000,
         rule: "previous disposition per signal drawn from {default, ignore, plain handler, siginfo handler}; first registrations of 1-3 signals on 1-2 threads, deliveries on other threads and nested at every scheduling point incl. around sigaction() and the publishing swap. Non-trivial: a delivery was dispatched to the library's handler while the signal's slot was not yet published (race-fallback path) with a real previous handler. Distinct: by schedule signature.",
-        probes: &[(E_RACE_FALLBACK, "delivery_took_race_fallback_path"), (E_PREV_CHAINED, "previous_handler_chained"), (E_LIB_HANDLER_NO_SLOT, "library_handler_ran_without_slot")],
+        probes: &[(E_RACE_FALLBACK, "delivery_took_race_fallback_path"), (E_PREV_CHAINED, "previous_handler_chained"), (E_LIB_HANDLER_NO_SLOT, "library_handler_ran_without_slot"), (E_FOREIGN_INSTALL, "fault:foreign_handler_replaced_before_takeover")],
         real: REG_REAL,
         stub: REG_STUB,
         assumptions: &["nobody but the library changes dispositions after set-up (the property's own precondition)"],
